@@ -43,7 +43,7 @@ TIERS = {
         "C14": (8000, 60),
         "C15": (1200, 80),
         "C16": (8000, 50),
-        "C19": (1600, 60),
+        "C19": (2400, 80),
         "C20": (20000, 60),
     },
     "thorough": {"default": (400000, 1200), "C15": (25000, 1500), "C19": (30000, 1200)},
